@@ -518,6 +518,32 @@ type c11HolderPropsFlat struct {
 	U string
 }
 
+// c11Early is a user instantiation-aware processor that runs before every built-in one and takes no
+// part in the component's fields: it declines the component, or answers an empty / a partial list
+// from its properties callback. What it answers concerns its own work only.
+type c11Early struct {
+	processors.DefaultInstantiationAwareComponentPostProcessor
+	mode string
+}
+
+func (*c11Early) Naming() string { return "0-early" }
+func (*c11Early) Priority()      {}
+func (*c11Early) Order() int     { return -1 << 62 }
+func (p *c11Early) PostProcessAfterInstantiation(c any, name string) (bool, error) {
+	return p.mode != "declines", nil
+}
+func (p *c11Early) PostProcessProperties(ps []*cd.Property, c any, name string) ([]*cd.Property, error) {
+	switch p.mode {
+	case "answers-empty-list":
+		return []*cd.Property{}, nil
+	case "answers-subset":
+		if len(ps) > 1 {
+			return ps[:1], nil
+		}
+	}
+	return nil, nil
+}
+
 // a mixin whose tagged fields have the names of fields the embedding component declares itself
 // (Go's selectors reach only the outer ones; the container processes fields, not selectors)
 type C11ShadowMix struct {
@@ -613,7 +639,7 @@ func c11Static(c *core.Ctx) {
 	}
 	gen := func(yield func(sc) bool) {
 		for _, s := range []string{"unexported-embed", "exported>unexported", "unexported>exported>unexported", "decoys", "diamond", "two-depths", "tagged-embedded", "mixin-with-properties",
-			"shadowed-names", "holder-is-candidate/1", "holder-is-candidate/2", "holder-is-candidate/primary/1", "holder-is-candidate/primary/2", "holder-is-candidate/unnamed-peer"} {
+			"shadowed-names", "early-processor/declines", "early-processor/answers-empty-list", "early-processor/answers-subset", "holder-is-candidate/1", "holder-is-candidate/2", "holder-is-candidate/primary/1", "holder-is-candidate/primary/2", "holder-is-candidate/unnamed-peer"} {
 			if !yield(sc{s}) {
 				return
 			}
@@ -647,6 +673,46 @@ func c11Static(c *core.Ctx) {
 		want := view(&fin, fprov)
 		if !fo.OK() {
 			c.Report(key, "flat-failed", "the flat reference shape did not start: "+scen.FirstLine(fo.Err)+fo.Panic, s)
+			return
+		}
+		if strings.HasPrefix(s.Shape, "early-processor/") {
+			for depth, mk := range []func() (any, *c11inner){
+				func() (any, *c11inner) {
+					x := &c11HolderA{c11inner: sent, Pad: 7}
+					return x, &x.c11inner
+				},
+				func() (any, *c11inner) {
+					x := &c11HolderC{c11low{C11Inner2{sent}}}
+					return x, &x.c11inner
+				},
+			} {
+				h, in := mk()
+				prov := &c11Prov{"prov"}
+				rec := &c11Rec{}
+				sc := &c11Scan{}
+				sc.Tag, sc.NodeType = "mytag", "custom"
+				o := scen.Start(scen.StartSpec{Ch: envx.Fixed("", nil), Comps: []any{h, prov, rec, sc, &c11Early{mode: strings.TrimPrefix(s.Shape, "early-processor/")}},
+					Opts: []app.SettingOption{app.SetConfigLoader(loader.NewRawLoader([]byte("k: cfg\n")))}})
+				got := view(in, prov)
+				sort.Strings(rec.seen)
+				sort.Strings(frec.seen)
+				switch {
+				case !o.OK():
+					c.Outcome(s.Shape + "/failed")
+					c.Report(key, "embedding-changes-outcome", fmt.Sprintf("shape %s (mixin depth %d): start-up failed (%s%s) although the component starts without that processor", s.Shape, depth+1, scen.FirstLine(o.Err), o.Panic), s)
+					return
+				case got != want:
+					c.Outcome(s.Shape + "/differs")
+					c.Report(key, "not-processed", fmt.Sprintf("shape %s (mixin depth %d): next to a user processor that %s the fields end as [%s], without it as [%s]", s.Shape, depth+1, strings.TrimPrefix(s.Shape, "early-processor/"), got, want), s)
+					return
+				case fmt.Sprint(rec.seen) != fmt.Sprint(frec.seen):
+					c.Outcome(s.Shape + "/custom-tag")
+					c.Report(key, "custom-tag", fmt.Sprintf("shape %s: the custom tag processor received %v, without the early processor %v", s.Shape, rec.seen, frec.seen), s)
+					return
+				}
+			}
+			c.Outcome(s.Shape + "/as-without-it")
+			c.Sample(map[string]any{"shape": s.Shape})
 			return
 		}
 		if s.Shape == "shadowed-names" {
